@@ -576,7 +576,7 @@ func checkWriterField(w *World, r *Report, T *types.Named, wfield int, start, st
 	}
 	// StartRecording
 	e := newTermEnv(w)
-	paths, complete := enumPaths(e, start, 256)
+	paths, complete := enumPathsInl(e, start, 256, sameReceiverHelperOf(start))
 	if !complete {
 		r.Unknown("D3", "StartRecording paths", w.Pos(start.Pos()), "not loop-free")
 	}
@@ -600,7 +600,7 @@ func checkWriterField(w *World, r *Report, T *types.Named, wfield int, start, st
 	r.Check(okS && nOK >= 1, "D3", "StartRecording sets the writer exactly on its successful paths (after the header and background frame were written) and never on a failing path", w.Pos(start.Pos()), fmt.Sprintf("%d paths, %d successful", len(paths), nOK))
 	// StopRecording: every path on which the writer was open ends with writer = nil and Close called
 	e2 := newTermEnv(w)
-	paths, _ = enumPaths(e2, stop, 256)
+	paths, _ = enumPathsInl(e2, stop, 256, sameReceiverHelperOf(stop))
 	okStop := len(paths) > 0
 	for _, p := range paths {
 		open := hasGuard(p.Conds, "ne("+leaf+", nil)")
@@ -616,7 +616,7 @@ func checkWriterField(w *World, r *Report, T *types.Named, wfield int, start, st
 	r.Check(okStop, "D3", "StopRecording closes the writer and clears the field on every path where a file was open, whatever the rename returns (the sink is closed after any stop)", w.Pos(stop.Pos()), fmt.Sprintf("%d paths", len(paths)))
 	// Stop: close, remove own name, clear
 	e3 := newTermEnv(w)
-	paths, _ = enumPaths(e3, abort, 64)
+	paths, _ = enumPathsInl(e3, abort, 64, sameReceiverHelperOf(abort))
 	okAbort := len(paths) > 0
 	for _, p := range paths {
 		open := hasGuard(p.Conds, "ne("+leaf+", nil)")
